@@ -368,8 +368,66 @@ def shard(acc, item, tier, seed):
             acc.violation(kk, {"op": "env", "which": which}, m)
 
 
+def other_session_scenario(b_script):
+    """Session A (127.0.0.1:10001) registers and opens a connection; then session B FROM THE SAME HOST (other port) runs b_script;
+    then A continues with connected and unconnected requests.  Returns A's reply bytes after B's activity."""
+    S = sim.Sim(CFG)
+    a = sim.Session(S, ("127.0.0.1", 10001))
+    ha = Hist()
+    out = []
+    for kind in ("register", "fwd_open"):
+        fr, q = build(kind, ha, CTX[0])
+        judge(q, a.feed(fr), ha, a.alive, a.exc)
+    if b_script is not None:
+        b = sim.Session(S, ("127.0.0.1", 10002))
+        hb = Hist()
+        hb.serial = ha.serial - 1 if "same-serial" in b_script else 10      # Forward Close matches on the connection serial triple
+        for kind in b_script:
+            if kind == "same-serial":
+                continue
+            if kind == "eof":
+                b.close()
+                break
+            if not b.alive:
+                break
+            fr, q = build(kind, hb, CTX[1])
+            if fr is None:
+                continue
+            judge(q, b.feed(fr), hb, b.alive, b.exc)
+        if b.alive:
+            b.close()
+    for kind in ("unit_read", "unit_unknown_tag", "unit_write", "read_ok", "fwd_close", "unit_read"):
+        if not a.alive:
+            out.append(b"<session ended>")
+            break
+        if kind == "unit_unknown_tag":
+            ha.seq += 1
+            fr = W.send_unit_data(ha.session, ha.conns[-1][0], ha.seq, W.read_tag(W.tag_path("nosuch"), 1), CTX[2]) if ha.conns else None
+            q = None
+        else:
+            fr, q = build(kind, ha, CTX[2])
+        if fr is None:
+            out.append(b"<not applicable>")
+            continue
+        rp = a.feed(fr)
+        out.append(b"".join(rp))
+        if q is not None:
+            judge(q, rp, ha, a.alive, a.exc)
+    a.close()
+    return out
+
+
 def check_env(which):
     bad = []
+    if which.startswith("other-session:"):
+        script = which.split(":", 1)[1].split(",")
+        base = other_session_scenario(None)
+        got = other_session_scenario(script)
+        if got != base:
+            k = next(i for i, (x, y) in enumerate(zip(base, got)) if x != y) if len(base) == len(got) else -1
+            bad.append(("other-session-interference", "a second session from the same host doing %r changed what the first session is "
+                        "answered: reply %d is %s instead of %s" % (script, k, got[k].hex() if k >= 0 else got, base[k].hex() if k >= 0 else base)))
+        return bad
     if which == "randint":
         # first session gets a handle; second Register is offered 0, then the in-use handle, then a fresh value
         S = sim.Sim(CFG)
@@ -470,7 +528,11 @@ def run(ctx):
     for k in ks:
         items.append(("run", k, ("read_ok",)))
         items.append(("run", k, ("read_ok", "write_v1", "read_range", "write_v0")))
-    for which in ("randint", "send=0", "send=1", "send=2"):
+    for which in ("randint", "send=0", "send=1", "send=2",
+                  "other-session:register,eof", "other-session:register,fwd_open,eof", "other-session:register,fwd_open,unregister",
+                  "other-session:register,fwd_open,fwd_close", "other-session:same-serial,register,fwd_open,fwd_close",
+                  "other-session:register,fwd_open,fwd_open,unit_read,eof", "other-session:register,bad_command",
+                  "other-session:register,fwd_open,unknown_tag"):
         items.append(("env", which))
     total.merge(ctx.pmap(__name__, "shard2", items))
     total.count("traces_validated_against_impl", total.counters.get("transitions", 0))
